@@ -1,6 +1,7 @@
 import Req.Driver.Proto
 import Req.Driver.WireUtil
 import Req.H1.DumpWrite
+import Req.Client.DumpSites
 /-! Driver lanes of C13, part 2: the per-stack dump call sites (write programs). -/
 namespace Req.Driver.L.C13W
 open Req.Proto Req.Driver
@@ -54,8 +55,100 @@ def laneH1W : List String → String
     | _, _, _, _, _, _, _, _, _, _ => "bad-op"
   | _ => "bad-op"
 
+/-! #### HTTP/2 / HTTP/3 dump call sites -/
+
+/-- `n:v,n:v` (hex) or `-`. -/
+def decodeFields (s : String) : Option (List (Bytes × Bytes)) :=
+  if s == "-" then some [] else
+  (s.splitOn ",").mapM fun e =>
+    match e.splitOn ":" with
+    | [n, v] => do pure ((← decodeHex n), (← decodeHex v))
+    | _ => none
+
+def encodeFields (l : List (Bytes × Bytes)) : String :=
+  if l.isEmpty then "-" else ",".intercalate (l.map fun f => encodeHex f.1 ++ ":" ++ encodeHex f.2)
+
+open Req.Client.DumpSites in
+/-- `c13ghead <skipNonASCII> <dumpOn> <enumerated fields>` → fields handed to the compressor and
+the header dump. -/
+def laneGHead : List String → String
+  | [sk, d, fs] =>
+    match Wire.decodeBool sk, Wire.decodeBool d, decodeFields fs with
+    | some sk, some d, some fs =>
+      let o := encodeHead sk d fs
+      "wire=" ++ encodeFields o.wire ++ " d=" ++ encodeHex o.dump
+    | _, _, _ => "bad-op"
+  | _ => "bad-op"
+
+open Req.Client.DumpSites in
+/-- `c13gresp3 <dumpOn> <decoded fields | x>` → the HTTP/3 response-head dump (`x`: the HEADERS
+frame was refused before it was decoded). -/
+def laneGResp3 : List String → String
+  | [d, fs] =>
+    match Wire.decodeBool d, (if fs == "x" then some none else (decodeFields fs).map some) with
+    | some d, some fs => "d=" ++ encodeHex (respHeadH3 d fs)
+    | _, _ => "bad-op"
+  | _ => "bad-op"
+
+open Req.Client.DumpSites in
+/-- `c13gdata <maxFrame> <body reads> <grants>` → the DATA payloads = the dump calls. -/
+def laneGData : List String → String
+  | [m, ps, gs] =>
+    match m.toNat?, decodeList ps, decodeNatList gs with
+    | some m, some ps, some gs => encodeList (dataDump m ps gs)
+    | _, _, _ => "bad-op"
+  | _ => "bad-op"
+
+open Req.H2.Meta in
+def decodeEvent (e : String) : Option Event :=
+  if e == "!" then some Event.decodeError else
+  match e.splitOn ":" with
+  | [n, v] => do pure (Event.field (← decodeHex n) (← decodeHex v))
+  | _ => none
+
+open Req.H2.Meta in
+/-- fragments `len|ev,ev;len|…`, an event `n:v` (hex) or `!` (decoder error); `-` = none. -/
+def decodeFrags (s : String) : Option (List Frag) :=
+  if s == "-" then some [] else
+  (s.splitOn ";").mapM fun f =>
+    match f.splitOn "|" with
+    | [l, evs] => do
+      let l ← l.toNat?
+      let evs ← (if evs == "" then some [] else (evs.splitOn ",").mapM decodeEvent)
+      pure ⟨l, evs⟩
+    | _ => none
+
+open Req.Client.DumpSites Req.H2.Meta in
+/-- `c13gmeta <MaxHeaderListSize> <closeErr> <frags>` → outcome class and the response-head dump. -/
+def laneGMeta : List String → String
+  | [m, ce, fr] =>
+    match m.toNat?, Wire.decodeBool ce, decodeFrags fr with
+    | some m, some ce, some fr =>
+      (match readMeta m fr ce with
+       | .ok fs tr => "ok:" ++ toString fs.length ++ (if tr then ":trunc" else "")
+       | .conn c => "conn:" ++ toString c
+       | .stream c => "stream:" ++ toString c) ++ " d=" ++ encodeHex (metaDump m fr ce)
+    | _, _, _ => "bad-op"
+  | _ => "bad-op"
+
+open Req.Client.DumpSites in
+/-- `c13g3body <limit|-> <body reads>` → bytes the stream accepted, the body dump, failed. -/
+def laneG3Body : List String → String
+  | [lim, ps] =>
+    match (if lim == "-" then some none else lim.toNat?.map some), decodeList ps with
+    | some lim, some ps =>
+      let o := h3Body lim ps
+      "wire=" ++ encodeHex o.wire ++ " d=" ++ encodeHex o.dump ++ " failed=" ++ (if o.failed then "1" else "0")
+    | _, _ => "bad-op"
+  | _ => "bad-op"
+
 def lanes : List (String × (List String → String)) := [
-  ("c13h1w", laneH1W)
+  ("c13h1w", laneH1W),
+  ("c13ghead", laneGHead),
+  ("c13gdata", laneGData),
+  ("c13gresp3", laneGResp3),
+  ("c13gmeta", laneGMeta),
+  ("c13g3body", laneG3Body)
 ]
 
 end Req.Driver.L.C13W
